@@ -4,10 +4,12 @@ Open Scope N_scope.
 
 (* whatever operation is applied to one path -- accepted or refused, including a put that makes its directory
    grow -- every other path keeps its chunk map, kind and protection; an accepted rename changes exactly the
-   old and the new name *)
+   old and the new name, and when it is a directory that is renamed, the paths below the old and the new name *)
 Theorem c02_frame : forall pr s o q,
   path_eqb (target o) q = false ->
   (forall p n, o = Rename p n -> path_eqb (parent p ++ [n]) q = false) ->
+  (forall p n f, o = Rename p n -> lookup (files s) p = Some f -> f_isdir f = true ->
+     is_prefix p q = false /\ is_prefix (parent p ++ [n]) q = false) ->
   vlookup (fst (step pr s o)) q = vlookup s q.
 Proof. exact frame. Qed.
 Print Assumptions c02_frame.
